@@ -40,8 +40,9 @@ CHANNELS = ("json", "rich", "pickle")
 # ------------------------------------------------------------------------------------------------ common
 def rt(x, how):
     from cogent3.util.deserialise import deserialise_object
-    if how == "json":
-        return deserialise_object(json.loads(x.to_json()))
+    if how == "json":  # a registered type without its own to_json (SeqsData) goes through json.dumps of its rich dict
+        text = x.to_json() if hasattr(x, "to_json") else json.dumps(x.to_rich_dict())
+        return deserialise_object(json.loads(text))
     if how == "rich":
         return deserialise_object(x.to_rich_dict())
     if how == "pickle":
@@ -193,6 +194,8 @@ def seq_real_apply(x, op):
         return x.to_dna()
     if k == "degap":
         return x.degap()
+    if k == "fslice":  # the sequence spelled by a feature (joined spans, reverse complemented for the minus strand)
+        return next(iter(x.get_features(name=op[1], allow_partial=True))).get_slice()
     raise ValueError(op)
 
 
@@ -309,10 +312,14 @@ def gen_seq(tier, seed):
                 chains = [[]] + [[o] for o in d1 + extra]
                 if L >= 2:
                     pool = red + extra * 6
-                    for _ in range(600 if thorough else 40):
+                    for _ in range(600 if thorough else 30):
                         chains.append([rnd.choice(pool), rnd.choice(pool)])
                     for _ in range(200 if thorough else 8):
                         chains.append([rnd.choice(pool) for _ in range(3)])
+                if fid:
+                    fn = [f[1] for f in SEQ_FEATURES[fid]]
+                    chains += [[["fslice", n]] for n in fn] + [[["s", 1, 9, None], ["fslice", n]] for n in fn]
+                    chains += [[["rc"], ["fslice", fn[0]]], [["fslice", fn[0]], ["s", 1, None, None]], [["fslice", fn[-1]], ["rc"]]]
                 for ops in chains:
                     for how in hows:
                         yield [new, mt, parent, off, fid, info, ops, how]
@@ -338,12 +345,14 @@ def seq_refine(v0, v1, comps):
 def contract_seq(case):
     new, mt, parent, off, fid, info, ops, how = case
     s, cur = parent, mt
+    modelled = not any(op[0] == "fslice" for op in ops)
     for op in ops:
         if op[0] in ("rc", "rna", "dna") and cur not in ("dna", "rna"):
             return ("skip",)
         if op[0] == "s" and op[3] == 0:
             return ("skip",)
-        s, cur = seq_spec_apply(s, cur, op)
+        if modelled:
+            s, cur = seq_spec_apply(s, cur, op)
     holder = {}
 
     def build():
@@ -358,9 +367,9 @@ def contract_seq(case):
         return ("skip",)
     flags = seq_flags(off, fid, ops, x)
     tag = "seq/" + ("new" if new else "old")
-    model = {"str": s, "len": len(s), "name": "s1", "moltype": cur}
+    model = {"str": s, "len": len(s), "name": "s1", "moltype": cur} if modelled else None
     return check_rt(tag, how, build, seq_view, case, flags=flags, model=model, refine=seq_refine,
-                    nontrivial=len(s) > 0)
+                    nontrivial=len(x) > 0)
 
 
 # ------------------------------------------------------------------------------------------------ collections
@@ -529,7 +538,7 @@ def gen_coll(tier, seed):
                 for ops in coll_histories(kind, rid, thorough, rnd):
                     targets = ["self"]
                     if rid in ("dna3", "prot") and len(ops) <= (2 if thorough else 1):
-                        targets += ["seq"] + (["gapped", "aligned"] if kind in ("aln", "arr") else []) + (
+                        targets += ["seq", "seq[1:-1]", "seq.rc"] + (["gapped", "aligned"] if kind in ("aln", "arr") else []) + (
                             ["seqs"] if kind == "ncoll" else [])
                     for target in targets:
                         for how in CHANNELS:
@@ -539,6 +548,15 @@ def gen_coll(tier, seed):
 def coll_refine(v0, v1, comps):
     if set(comps) <= {"features", "annotation_db"} and v1.get("annotation_db") == [] and v0.get("annotation_db"):
         return "annotations-dropped"
+    return None
+
+
+def aligned_refine(v0, v1, comps):
+    if comps == ["data"] and isinstance(v0["data"], dict) and isinstance(v1["data"], dict):
+        inner = diff_components(v0["data"], v1["data"])
+        if set(inner) <= {"features", "annotation_db"} and v1["data"].get("annotation_db") == [] and v0["data"].get("annotation_db"):
+            return "annotations-dropped"
+        return "differs:data(" + "+".join(inner) + ")"
     return None
 
 
@@ -568,6 +586,10 @@ def contract_coll(case):
         n = x.names[0]
         if target == "seq":
             return x.get_seq(n)
+        if target == "seq[1:-1]":
+            return x.get_seq(n)[1:-1]
+        if target == "seq.rc":
+            return x.get_seq(n).rc()
         if target == "gapped":
             return x.get_gapped_seq(n)
         if target == "aligned":
@@ -585,16 +607,22 @@ def contract_coll(case):
         tag = f"coll/{kind}"
         viewfn, refine = coll_view, coll_refine
         model = {"names": st["names"], "dict": {n: st["rows"][n] for n in st["names"]}, "moltype": st["mt"]}
-    elif target in ("seq", "gapped"):
-        tag = f"coll/{kind}.{'get_seq' if target == 'seq' else 'get_gapped_seq'}"
+    elif target in ("seq", "gapped", "seq[1:-1]", "seq.rc"):
+        tag = f"coll/{kind}.{'get_gapped_seq' if target == 'gapped' else 'get_seq'}"
         viewfn, refine = seq_view, seq_refine
         shown = st["rows"][n0] if target == "gapped" else "".join(c for c in st["rows"][n0] if c not in GAPCH)
+        if target == "seq[1:-1]":
+            shown = shown[1:-1]
+        if target == "seq.rc":
+            if st["mt"] not in ("dna", "rna"):
+                return ("skip",)
+            shown = comp(shown[::-1], st["mt"])
         model = {"str": shown, "name": n0}
     elif target == "aligned":
         if not hasattr(x, "map"):
             return ("skip",)  # ArrayAlignment.named_seqs holds plain sequences (covered by target seq)
         tag = f"coll/{kind}.Aligned"
-        viewfn, refine = aligned_view, None
+        viewfn, refine = aligned_view, aligned_refine
         model = {"str": st["rows"][n0]}
     else:
         tag = f"coll/{kind}.SeqsData"
@@ -671,22 +699,32 @@ def tree_apply(t, op):
     raise ValueError(op)
 
 
-def tree_view(t, newick=True):
+def _auto(nm, blur):
+    """a node without a name is given an automatic edge.N name when the tree is read back; when the original has such
+    a node the automatic names are compared as one class"""
+    import re
+    if blur and (nm is None or re.fullmatch(r"edge\.\d+", nm)):
+        return "edge.?"
+    return nm
+
+
+def tree_view(t, newick=True, blur=False):
     """an absent parameter and a parameter that is None are the same observation; the newick text of a node that
     still hangs in its tree spells the node's own name, a detached copy cannot, so for an inner node the text is
     left to the structural components"""
     def nodes():
         out = []
         for n in t.preorder():
-            out.append([n.name, n.length, {k: plain(v) for k, v in sorted(n.params.items()) if v is not None},
-                        [c.name for c in n.children], None if (n is t or n.parent is None) else n.parent.name])
+            out.append([_auto(n.name, blur), n.length, {k: plain(v) for k, v in sorted(n.params.items()) if v is not None},
+                        [_auto(c.name, blur) for c in n.children],
+                        None if (n is t or n.parent is None) else _auto(n.parent.name, blur)])
         return out
     return {
         "type": type(t).__name__,
         "root_name": obs(lambda: t.name),
         "root_length": obs(lambda: t.length),
         "tips": obs(lambda: t.get_tip_names()),
-        "newick": obs(lambda: t.get_newick(with_distances=True, with_node_names=True)) if newick else None,
+        "newick": obs(lambda: t.get_newick(with_distances=True, with_node_names=not blur)) if newick else None,
         "nodes": obs(nodes),
     }
 
@@ -764,7 +802,8 @@ def contract_tree(case):
     nc = tree_name_class(names)
     if nc:
         fl.append("name:" + nc)
-    return check_rt("tree", how, build, lambda t: tree_view(t, newick=not inner), case, flags=",".join(fl),
+    blur = any(nm is None for nm in names)
+    return check_rt("tree", how, build, lambda t: tree_view(t, newick=not inner, blur=blur), case, flags=",".join(fl),
                     nontrivial=len(names) > 1)
 
 
@@ -1776,8 +1815,10 @@ def result_view(r):
     def items():
         r.deserialised_values()
         return [[plain(k), value_view(r[k])] for k in r]
-    v = {"type": type(r).__name__, "source": obs(lambda: r.source), "items": obs(items)}
     tn = type(r).__name__
+    if tn == "model_result":
+        obs(lambda: r.lf)  # reading .lf (re)names the member functions "<name> pos-<k>": do it before anything is recorded
+    v = {"type": tn, "source": obs(lambda: r.source), "items": obs(items)}
     if tn == "model_result":
         v.update({
             "name": obs(lambda: r.name), "lnL": obs(lambda: float(r.lnL)), "nfp": obs(lambda: int(r.nfp)),
@@ -1922,7 +1963,8 @@ BOUNDED = {
                  "ambiguity codes, protein 3x6, single sequence) x {unannotated, sequence features, + alignment feature} x "
                  "histories of depth <= 2 (thorough: all pairs + depth-3 sample; quick: every 5th pair) over take_seqs, "
                  "take_seqs(negate), rename_seqs, column slices, rc, to_rna, degap, omit_gap_pos, take_positions, add_feature on "
-                 "the view x targets {collection, get_seq, get_gapped_seq, Aligned member, SeqsData} x channels json, rich, pickle",
+                 "the view x targets {collection, get_seq (also sliced / reverse complemented), get_gapped_seq, Aligned member, "
+                 "SeqsData} x channels json, rich, pickle",
         "rule": "a case = (class, row set, annotation level, history, target, channel); non-trivial when some row is non-empty; "
                 "distinct by hash of the case",
     },
